@@ -373,3 +373,13 @@ def calls_with_helpers(facts, fn, seg, _seen=None):
             seen.add(cl.name)
             out += calls_with_helpers(facts, cl, seg, seen)
     return out
+
+
+def caller_fns(facts, target):
+    """known_callers with closures mapped to the function that defines them."""
+    out = set()
+    for c in known_callers(facts, target):
+        while "::{closure#" in c:
+            c = c[:c.rindex("::{closure#")]
+        out.add(c)
+    return out
